@@ -240,11 +240,22 @@ class Family:
         keeps the original position)."""
         d = self.defs[name]
         out = {}
-        for b in d.get("bases", ()):
-            bname = b.split("[")[0]
-            if bname in self.defs and self.defs[bname]["k"] == "dc":
-                for f in self.dc_fields(bname):
+        live = self.module.__dict__.get(name)
+        if isinstance(live, type) and len(d.get("bases", ())) > 1:
+            # several bases, the stdlib rule: every dataclass of the reversed MRO contributes its COMPLETE field table
+            # (dataclasses reads each base's __dataclass_fields__ over __mro__[-1:0:-1]); the last one wins
+            for c in live.__mro__[-1:0:-1]:
+                cd = self.defs.get(c.__name__)
+                if cd is None or cd.get("k") != "dc" or self.module.__dict__.get(c.__name__) is not c:
+                    continue
+                for f in self.dc_fields(c.__name__):
                     out[f["n"]] = f
+        else:
+            for b in d.get("bases", ()):
+                bname = b.split("[")[0]
+                if bname in self.defs and self.defs[bname]["k"] == "dc":
+                    for f in self.dc_fields(bname):
+                        out[f["n"]] = f
         for f in d["fields"]:
             if f.get("raw"):
                 continue
